@@ -145,6 +145,51 @@ theorem c13_frame_self_delimiting (ch : UInt8) (p rest : List UInt8) (h : p.leng
     nextUnit (encodeFrame ch p ++ rest) = some (Unit.frame ch p, rest) :=
   nextUnit_frame ch p rest h
 
+/-- A complete RTSP response (protocol token, header block ended by an empty line, body of exactly
+    Content-Length bytes) is self-delimiting as well. -/
+theorem c13_response_self_delimiting (raw rest : List UInt8) (h : wfResponse raw = true) :
+    nextUnit (raw ++ rest) = some (InterleaveSpec.Unit.response raw, rest) :=
+  nextUnit_response raw rest h
+
+/-- Hence every concatenation of complete frames and complete responses — any number, any order —
+    is parsed by the stream specification into exactly those units. -/
+theorem c13_stream_of_units (us : List InterleaveSpec.Unit) (hw : ∀ u ∈ us, u.wf = true) :
+    parse (us.map InterleaveSpec.Unit.bytes).flatten = some us :=
+  parseStream_concat us hw _ (Nat.lt_succ_self _)
+
+/-- The property end to end: writers whose programs are well-locked and whose messages are complete
+    responses or complete interleaved frames, in EVERY interleaving that runs them to completion, put
+    on the connection a byte stream that the specification reads as a sequence of complete responses
+    and complete frames — the units of the sections in the order they completed, every goroutine's own
+    units all present and in its own order. -/
+theorem c13_stream_parses (jobs : Nat → List Job) (unit : Job → InterleaveSpec.Unit)
+    (hok : ∀ t, ∀ j ∈ jobs t, bodyOk j.body = true)
+    (hunit : ∀ t, ∀ j ∈ jobs t, (unit j).wf = true ∧ j.msg = (unit j).bytes)
+    (sched : List Nat) (hfin : ∀ t, (exec (initSt (fun t => progOf (jobs t))) sched).threads t = []) :
+    ∃ done : List (Nat × Job),
+      parse (exec (initSt (fun t => progOf (jobs t))) sched).out.flatten = some (done.map (fun p => unit p.2)) ∧
+      ∀ t, doneOf done t = jobs t := by
+  obtain ⟨done, hout, hdone⟩ := c13_no_tear_complete jobs hok sched hfin
+  refine ⟨done, ?_, hdone⟩
+  have hmem : ∀ p ∈ done, p.2 ∈ jobs p.1 := by
+    intro p hp
+    have : p.2 ∈ doneOf done p.1 := by
+      simp only [doneOf, List.mem_map, List.mem_filter]
+      exact ⟨p, ⟨hp, by simp⟩, rfl⟩
+    rw [hdone p.1] at this
+    exact this
+  have hbytes : done.map (fun p => p.2.msg) = (done.map (fun p => unit p.2)).map InterleaveSpec.Unit.bytes := by
+    rw [List.map_map]
+    apply List.map_congr_left
+    intro p hp
+    exact (hunit p.1 p.2 (hmem p hp)).2
+  rw [hout, hbytes]
+  apply c13_stream_of_units
+  intro u hu
+  simp only [List.mem_map] at hu
+  obtain ⟨p, hp, rfl⟩ := hu
+  exact (hunit p.1 p.2 (hmem p hp)).1
+
 /-- On the WebSocket transports the consumer of the current source tree sends, for every packet,
     at most one message, and every message it sends is exactly one complete interleaved frame. -/
 theorem c13_ws_one_message (ch : Int) (data : List UInt8) (h : data.length < 65536) :
@@ -176,5 +221,10 @@ example : ∀ t, ∀ j ∈ (fun t : Nat => if t = 0 then [Job.mk [.write [1], .w
     bodyOk j.body = true := by
   intro t j hj
   by_cases h : t = 0 <;> simp [h] at hj <;> subst hj <;> rfl
+
+/-- non-vacuity of `c13_response_self_delimiting` / `c13_stream_parses`: the bytes of
+    "RTSP/1.0 200 OK\\r\\nCSeq: 3\\r\\nContent-Length: 4\\r\\n\\r\\nabcd" are a well-formed response -/
+example : wfResponse [82, 84, 83, 80, 47, 49, 46, 48, 32, 50, 48, 48, 32, 79, 75, 13, 10, 67, 83, 101, 113, 58, 32, 51, 13, 10, 67, 111, 110, 116, 101, 110, 116, 45, 76, 101, 110, 103, 116, 104, 58, 32, 52, 13, 10, 13, 10, 97, 98, 99, 100] = true := by
+  decide
 
 end IpcHub.Props.C13
